@@ -47,6 +47,9 @@ pub struct PfPlan {
     /// crash points to try on the last dump; None = all of them (before open, every byte offset)
     pub crash_offsets: Option<Vec<i64>>,
     pub enospc_at: Option<u32>,
+    /// clock fault: the file system has coarse timestamps - every dump leaves the same modification time
+    #[serde(default)]
+    pub coarse_mtime: bool,
 }
 
 static DIRSEQ: AtomicU64 = AtomicU64::new(0);
@@ -132,7 +135,10 @@ fn gen_params(rng: &mut Rng) -> PfParams {
     };
     let m = *rng.pick(&[1u64, 2, 64, 4096, 4096, 70000, u32::MAX as u64, 1 << 40, u64::MAX, 0]);
     let m = if rng.chance(0.3) { rng.log_range(1, 1 << 20) } else { m };
+    // arbitrary 64-bit values: most are not representable in a double
+    let m = if rng.chance(0.15) { rng.u64() | 1 } else { m };
     let q = *rng.pick(&[65534u64, 65534, 30, 0, 1 << 20, (1 << 32) - 2, 1 << 63, u64::MAX]);
+    let q = if rng.chance(0.15) { (rng.u64() >> rng.below(12)) | 1 } else { q };
     PfParams { b_bits: b.to_bits(), m, a_bits: a.to_bits(), q, short_decimal: short, b_text: bt, a_text: at }
 }
 
@@ -226,8 +232,14 @@ impl Scenario for ParamFile {
     }
     fn generate(&self, rng: &mut Rng, _tier: Tier, _t: &str) -> PfPlan {
         let n = *rng.pick(&[1usize, 1, 2, 2, 3]);
-        let dumps = (0..n).map(|_| gen_params(rng)).collect();
-        PfPlan { dumps, faults: IoFaults::default(), crash_offsets: None, enospc_at: None }
+        let mut dumps: Vec<PfParams> = (0..n).map(|_| gen_params(rng)).collect();
+        // a successor that serialises to the same length (one digit of q changed)
+        if n >= 2 && rng.chance(0.4) {
+            let mut t = dumps[0].clone();
+            t.q = if t.q % 10 == 9 || t.q == u64::MAX { t.q - 1 } else { t.q + 1 };
+            dumps[1] = t;
+        }
+        PfPlan { dumps, faults: IoFaults::default(), crash_offsets: None, enospc_at: None, coarse_mtime: rng.chance(0.4) }
     }
     fn execute(&self, plan: &PfPlan, ctx: &mut Ctx) -> Result<(), Violation> {
         let dir = Scratch::new("in");
@@ -247,6 +259,20 @@ impl Scenario for ParamFile {
             }
             let r = caught(|| p.params().dump_json(&dir.0));
             ctx.check("C20", "dump-succeeds", matches!(r, Ok(Ok(()))), || format!("dump_json failed: {:?}", r))?;
+            if plan.coarse_mtime {
+                // every file written in this run carries the same timestamp (1 s / 2 s granularity file systems, cp -p)
+                if let Ok(f) = std::fs::OpenOptions::new().write(true).open(dir.file()) {
+                    let t = std::time::UNIX_EPOCH + std::time::Duration::from_secs(1_700_000_000);
+                    if f.set_modified(t).is_ok() {
+                        ctx.count("fault:coarse-modification-time");
+                    }
+                }
+                if let Some((prev, _)) = &last {
+                    if prev.len() == e.len() && *prev != e {
+                        ctx.count("probe:same-length-same-mtime-different-content");
+                    }
+                }
+            }
             let content = std::fs::read(dir.file()).unwrap_or_default();
             if content != e {
                 // not a verdict by itself (the property speaks about what reload returns); the reload below decides
@@ -335,6 +361,11 @@ fn shrink_pf(plan: &PfPlan) -> Vec<PfPlan> {
     if plan.enospc_at.is_some() {
         let mut p = plan.clone();
         p.enospc_at = None;
+        out.push(p);
+    }
+    if plan.coarse_mtime {
+        let mut p = plan.clone();
+        p.coarse_mtime = false;
         out.push(p);
     }
     // simpler parameter values
@@ -481,7 +512,7 @@ impl Scenario for ParamFileShim {
             eintr_read: if rng.chance(0.5) { Some(rng.range(1, 4) as u32) } else { None },
         };
         let enospc_at = if rng.chance(0.5) { Some(rng.range(0, 60) as u32) } else { None };
-        PfPlan { dumps, faults, crash_offsets: None, enospc_at }
+        PfPlan { dumps, faults, crash_offsets: None, enospc_at, coarse_mtime: false }
     }
     fn execute(&self, plan: &PfPlan, ctx: &mut Ctx) -> Result<(), Violation> {
         let dir = Scratch::new("sh");
